@@ -177,6 +177,15 @@ def ref_tab(el, nd, X):
             d0 += t.shape[1]
             v0 += t.shape[2]
         return out, maps
+    if isinstance(el, basix.ufl._QuadratureElement):
+        # defined at its own points only: dof k is the value at point k
+        P = np.asarray(el._points, dtype=float)
+        hit = np.where(np.abs(P - np.asarray(X, dtype=float)).max(axis=1) < 1e-12)[0]
+        if len(hit) != 1 or nd != 0:
+            raise Unsupported("quadrature element evaluated away from its points (or differentiated)")
+        out = np.zeros((1, P.shape[0], 1))
+        out[0, hit[0], 0] = 1.0
+        return out, [("identity", 0, 1)]
     if isinstance(el, basix.ufl._RealElement):
         vs = int(np.prod(el.reference_value_shape)) if el.reference_value_shape else 1
         tdim = len(X)
